@@ -70,6 +70,7 @@ func (e *Engine) VerifyFunc(full string) *FuncResult {
 			args = append(args, v)
 			env[names[i]] = specBind{v, typs[i]}
 		}
+		addPositional(env, names, sig, "arg")
 		if len(fn.FreeVars) > 0 {
 			// closure under contract: free variables are pointers to captured variables; model as fresh heap cells
 			for _, fv := range fn.FreeVars {
@@ -178,6 +179,11 @@ func (e *Engine) VerifyFunc(full string) *FuncResult {
 					}
 					a2[i] = nv
 					env2[names[i]] = specBind{nv, typs[i]}
+					if off := len(names) - sig.Params().Len(); i >= off {
+						if al := fmt.Sprintf("arg%d", i-off); al != names[i] {
+							env2[al] = env2[names[i]]
+						}
+					}
 					runWith(k+1, st2, a2, env2)
 				})
 			}
